@@ -584,6 +584,9 @@ def put_model(mjm: mujoco.MjModel, batch_sizes: dict[str, int] | None = None) ->
     return (i * (2 * n - i - 3)) // 2 + j - 1
 
   for i in range(mjm.npair):
+    # the pair table has one slot per unordered pair of DISTINCT geoms: a self pair would alias another pair's slot
+    if mjm.pair_geom1[i] == mjm.pair_geom2[i]:
+      raise NotImplementedError(f"Contact pair {i}: a pair of a geom with itself is not supported.")
     nxn_pairid_contact[upper_tri_index(mjm.ngeom, mjm.pair_geom1[i], mjm.pair_geom2[i])] = i
 
   sensor_collision_adr = np.nonzero(is_collision_sensor)[0]
